@@ -233,6 +233,30 @@ def wf_collect(w: int) -> type:
     ])
 
 
+def wf_collect_two_buffers(w: int, k: int = 4) -> type:
+    """every invocation of the collector adds its event to two buffers: "x" (all k events) and "y0"/"y1" (by uid
+    parity) - with overlapping invocations one buffer can be stale while the other is not"""
+
+    async def start(self, ctx, ev, inv):  # noqa: ANN001
+        for i in range(1, k + 1):
+            ctx.send_event(A(uid=i))
+        return None
+
+    async def coll(self, ctx, ev, inv):  # noqa: ANN001
+        await gate(f"c{ev.uid}")
+        r1 = ctx.collect_events(ev, [A] * k, buffer_id="x")
+        r2 = ctx.collect_events(ev, [A] * (k // 2), buffer_id=f"y{ev.uid % 2}")
+        inv.info["pairs"] = None if r2 is None else sorted(e.uid for e in r2)
+        if r1 is None:
+            return None
+        return StopEvent(result=sorted(e.uid for e in r1))
+
+    return make_workflow("Coll2", [
+        make_step("start", [StartEvent], [A, None], start),
+        make_step("coll", [A], [StopEvent, None], coll, num_workers=w),
+    ])
+
+
 def wf_collect_fail(w: int) -> type:
     """collector (num_workers=w, retry policy) whose invocation for B2 raises AFTER calling collect_events on its
     first attempt; 4 events so that one waits in the queue"""
@@ -410,6 +434,9 @@ def catalog(tier: str) -> list[Spec]:
     for w in (1, 2, 3):
         sp.append(Spec(f"collect(w={w})", {"w": w}, (lambda w=w: wf_collect(w)), min_concurrency=min(3, w),
                        tags=("collect",)))
+    for w in ((2,) if q else (2, 3)):
+        sp.append(Spec(f"collect_two_buffers(w={w})", {"w": w}, (lambda w=w: wf_collect_two_buffers(w)),
+                       min_concurrency=w, tags=("collect",), max_dev=(4 if q else 6)))
     for w in (2, 3):
         sp.append(Spec(f"collect_fail(w={w})", {"w": w}, (lambda w=w: wf_collect_fail(w)), tags=("collect", "retry"),
                        max_dev=(4 if q else 6)))
